@@ -404,6 +404,15 @@ func c16Dynamic(rt *rapid.T) {
 		for _, kv := range [][2]string{{"s", it.s}, {"p", it.p}, {"r", it.r}, {"e", it.e}} {
 			el.Attrs = append(el.Attrs, &xdoc.Node{Kind: xpath.AttributeNode, Local: kv[0], Value: kv[1]})
 		}
+		// the subject once more as the second <t> child (the first carries no @k and another text):
+		// t[2], t[@k], t[@k][1] and t[last()] all address it
+		el.Kids = []*xdoc.Node{
+			{Kind: xpath.ElementNode, Local: "t", Kids: []*xdoc.Node{{Kind: xpath.TextNode, Value: "zzzz"}}},
+			{Kind: xpath.ElementNode, Local: "t", Attrs: []*xdoc.Node{{Kind: xpath.AttributeNode, Local: "k", Value: "1"}}},
+		}
+		if it.s != "" {
+			el.Kids[1].Kids = []*xdoc.Node{{Kind: xpath.TextNode, Value: it.s}}
+		}
 		r.Kids = append(r.Kids, el)
 	}
 	doc := xdoc.NewDoc(root)
@@ -421,6 +430,11 @@ func c16Dynamic(rt *rapid.T) {
 		{"//i[matches(@s, string(@p))]", wantMatch},
 		{"//i[replace(@s, string(@p), string(@r)) = @e]", all},
 		{"//i[matches(string(@s), concat(@p, ''))][replace(string(@s), concat(@p, ''), concat(@r, '')) = @e]", wantMatch},
+		// the subject as a path with predicates of its own (the argument query keeps position tables)
+		{"//i[matches(t[2], string(@p))]", wantMatch},
+		{"//i[matches(t[@k][1], string(@p))]", wantMatch},
+		{"//i[replace(t[last()], string(@p), string(@r)) = @e]", all},
+		{"//i[replace(t[@k][1], string(@p), string(@r)) = @e][matches(t[@k], string(@p))]", wantMatch},
 	} {
 		l := &harness.Live{Property: "C16", Check: "C16/dynamic", Doc: doc, Ctx: doc.Root, Expr: c.expr, Params: map[string]interface{}{"want": c.want}}
 		if f := oracleC16Dynamic(l); f != nil {
